@@ -29,7 +29,7 @@ from props import PROPS  # per-property configuration
 
 
 # multiples of the builders' thorough case lists, sized so that one thorough run takes roughly 5-15 minutes on 16 idle cores
-THOROUGH_SCALE = {"C01": 6, "C02": 24, "C03": 6, "C04": 40, "C05": 16, "C06": 3, "C07": 3, "C08": 3, "C09": 3, "C10": 2,
+THOROUGH_SCALE = {"C01": 6, "C02": 24, "C03": 6, "C04": 40, "C05": 16, "C06": 2, "C07": 3, "C08": 3, "C09": 3, "C10": 2,
                   "C12": 5, "C13": 2, "C15": 16, "C16": 12, "C20": 4}
 
 # the same for the quick tier: checks whose builder-sized quick list takes < 4 s run a multiple of it (10-20 s)
